@@ -391,6 +391,7 @@ def m_next(I, st, info, args, depth):
     item = Sym("item%d@%d" % (n, info["ln"]))
     if "HashMap" in info["name"] or "hash::map::Iter" in info["name"]:
         item = Struct("(tuple)", None, {"0": Sym("key%d@%d" % (n, info["ln"])), "1": Sym("val%d@%d" % (n, info["ln"]))})
+    s2.events.append(("iter_item", "item%d@%d" % (n, info["ln"]), getattr(it0, "name", repr(it0))))
     st.cond.append("iterator ends")
     if n >= I.sym_loop_unroll:
         return [(st, "return", none())]
@@ -892,7 +893,7 @@ def m_json_map(I, st, info, args, depth):
         s2.facts[fact] = True
         st.facts[fact] = False
         return [(s2, "return", some(item)), (st, "return", none())]
-    st.events.append(("Map::" + op, nm, k))
+    st.events.append(("Map::" + op, nm, k) + ((str_key(I, st, args[2]),) if op == "insert" and len(args) > 2 else ()))
     return ret(st, Top("Map::" + op))
 
 
@@ -1563,31 +1564,62 @@ def m_map_iter(I, st, info, args, depth):
     return ret(st, Struct("MapIter", None, {"map": deref(I, st, args[0]), "by": info["tdef"].split("::")[-1]}))
 
 
+def _as_pipeline(I, it):
+    """an opaque collection handed to an iterator adaptor becomes a pipeline source (opt-in: Interp.generic_pipelines)"""
+    if isinstance(it, Struct) and it.adt in ("MapIter", "Mapped", "Lossy"):
+        return it
+    if getattr(I, "generic_pipelines", False) and isinstance(it, Sym):
+        return Struct("MapIter", None, {"map": it, "by": "into_iter", "generic": BoolV(True)})
+    return None
+
+
 @model(r"^core::iter::traits::iterator::Iterator::map$")
 def m_iter_map(I, st, info, args, depth):
-    it = deref(I, st, args[0])
-    if isinstance(it, Struct) and it.adt in ("MapIter", "Mapped"):
+    it = _as_pipeline(I, deref(I, st, args[0]))
+    if it is not None:
         return ret(st, Struct("Mapped", None, {"inner": it, "f": args[1]}))
     return m_safe_std(I, st, info, args, depth)
 
 
+@model(r"^core::iter::traits::iterator::Iterator::(filter|filter_map|skip|take|step_by|skip_while|take_while|flat_map|flatten|zip|chain|rev|enumerate|map_while|scan|cycle|intersperse)$")
+def m_iter_lossy(I, st, info, args, depth):
+    """adaptors that may drop, add, reorder or reshape elements: remembered in the pipeline so that a collect() reports them"""
+    if not getattr(I, "generic_pipelines", False):
+        return None
+    it = _as_pipeline(I, deref(I, st, args[0]))
+    if it is not None:
+        return ret(st, Struct("Lossy", None, {"inner": it, "op": StrV(info["tdef"].split("::")[-1])}))
+    return None
+
+
 def _map_source(it):
     fs = []
-    while isinstance(it, Struct) and it.adt == "Mapped":
-        fs.append(it.fields["f"])
+    lossy = []
+    while isinstance(it, Struct) and it.adt in ("Mapped", "Lossy"):
+        if it.adt == "Mapped":
+            fs.append(it.fields["f"])
+        else:
+            lossy.append(it.fields["op"].s)
         it = it.fields["inner"]
+    _map_source.lossy = lossy
     return it, list(reversed(fs))
 
 
 @model(r"^core::iter::traits::iterator::Iterator::collect$|^core::iter::traits::collect::FromIterator::from_iter$")
 def m_collect_map(I, st, info, args, depth):
     it = deref(I, st, args[0])
+    if getattr(I, "generic_pipelines", False):
+        it = _as_pipeline(I, it) or it
     src, fs = _map_source(it)
+    lossy = list(_map_source.lossy)
     if isinstance(src, Struct) and src.adt == "MapIter":
         m = src.fields["map"]
         mname = getattr(m, "name", repr(m))
         # evaluate the per-entry pipeline once on an arbitrary entry (k, v)
-        entry = Struct("(tuple)", None, {"0": Ptr(st.new_cell(Seq("entry.key", Aff.sym("len(entry.key)"), kind="str")), ()), "1": Ptr(st.new_cell(Sym("entry.value")), ())})
+        if "generic" in src.fields:
+            entry = Sym("entry")    # element of an opaque collection: its shape is materialised by what the pipeline does with it
+        else:
+            entry = Struct("(tuple)", None, {"0": Ptr(st.new_cell(Seq("entry.key", Aff.sym("len(entry.key)"), kind="str")), ()), "1": Ptr(st.new_cell(Sym("entry.value")), ())})
         states = [(st.clone(), entry)]
         for f in fs:
             nxt = []
@@ -1599,14 +1631,25 @@ def m_collect_map(I, st, info, args, depth):
         per = []
         for s2, val in states:
             val = deref(I, s2, val)
-            kd = describe(I, s2, val.fields.get("0")) if isinstance(val, Struct) else repr(val)
-            vv = deref(I, s2, val.fields.get("1")) if isinstance(val, Struct) else None
-            vd = (vv.adt.split("::")[-1] + "::" + vv.variant) if isinstance(vv, Struct) and vv.variant else getattr(vv, "name", repr(vv))
+            if isinstance(val, Struct) and "0" in val.fields and "1" in val.fields:
+                kd = describe(I, s2, val.fields.get("0"))
+                vv = deref(I, s2, val.fields.get("1"))
+                vd = (vv.adt.split("::")[-1] + "::" + vv.variant) if isinstance(vv, Struct) and vv.variant else getattr(vv, "name", repr(vv))
+            elif isinstance(val, Struct):
+                kd = describe(I, s2, val.fields.get("0"))
+                vd = repr(None)
+            else:
+                kd, vd = None, getattr(val, "name", repr(val))
             per.append((kd, vd, tuple(c for c in s2.cond if c not in st.cond), tuple(s2.unmodelled)))
-        res = Sym("collected(%s)" % mname, attrs={"source": mname, "per_entry": per})
-        st.events.append(("collect_map", mname, per))
+        res = Sym("collected(%s)" % mname, attrs={"source": mname, "per_entry": per, "lossy": lossy})
+        st.events.append(("collect_map", mname, per, lossy))
         return ret(st, res)
     return None
+
+
+@model(r"^serde_json::map::Map::<.*>::new$")
+def m_json_map_new(I, st, info, args, depth):
+    return ret(st, Seq("empty_map", Aff(0), kind="map"))
 
 
 @model(r"^serde_json::ser::to_string$|^serde_json::ser::to_string_pretty$|^serde_json::ser::to_vec$")
@@ -1622,4 +1665,4 @@ def _prioritise(names):
     MODELS[:] = front + rest
 
 
-_prioritise({"m_collect_map", "m_iter_map", "m_map_iter", "m_slice_get", "m_split_at_checked", "m_any", "m_push_str", "m_string_new", "m_fmt_write", "m_rng_fill"})
+_prioritise({"m_collect_map", "m_iter_map", "m_iter_lossy", "m_map_iter", "m_slice_get", "m_split_at_checked", "m_any", "m_push_str", "m_string_new", "m_fmt_write", "m_rng_fill"})
